@@ -3,6 +3,8 @@ package props
 import (
 	"context"
 	"fmt"
+	"os"
+	"path/filepath"
 	"time"
 
 	pb "github.com/kubewharf/kubebrain-client/api/v2rpc"
@@ -11,6 +13,7 @@ import (
 	"google.golang.org/grpc/status"
 
 	"github.com/kubewharf/kubebrain/pkg/backend"
+	"github.com/kubewharf/kubebrain/pkg/endpoint"
 
 	"verif/internal/harness"
 )
@@ -21,7 +24,7 @@ import (
 // Oracle: a write sent to the follower either fails and changes nothing, or (etcd API with the proxy on) is executed by
 // the leader exactly once; native writes and native watches are refused; an etcd watch is refused or (proxy on) shows the
 // leader's events; every read the follower answers contains a write the leader acknowledged before the read was sent.
-func runC18ProdPair(c *harness.Case, proxyOn bool) {
+func runC18ProdPair(c *harness.Case, proxyOn bool, peerTLS string) {
 	eng, err := harness.NewEngine("memkv")
 	if err != nil {
 		c.Inconclusive(err.Error())
@@ -29,7 +32,21 @@ func runC18ProdPair(c *harness.Case, proxyOn bool) {
 	}
 	// (never closed: the election loops of both nodes cannot be stopped)
 	rm := harness.NewRecMetrics(true)
-	A, ok := newProdNode(c, eng.KV, rm, true, proxyOn, 1024)
+	// the peer port, through which the follower's revision syncer and etcd proxy reach the leader: plain, TLS with client
+	// certificates only, or both on one port
+	sec := func() *endpoint.SecurityConfig { return &endpoint.SecurityConfig{} }
+	if peerTLS != "off" {
+		cs, cerr := harness.NewCertSet(filepath.Join(harness.ScratchRoot, fmt.Sprintf("certs-%d-%d", os.Getpid(), c.Index)))
+		if cerr != nil {
+			c.Inconclusive("certificates: " + cerr.Error())
+			return
+		}
+		defer os.RemoveAll(cs.Dir)
+		sec = func() *endpoint.SecurityConfig {
+			return &endpoint.SecurityConfig{CertFile: cs.Cert, KeyFile: cs.Key, CA: cs.CA, AllowInsecure: peerTLS == "both"}
+		}
+	}
+	A, ok := newProdNodeSec(c, eng.KV, rm, true, proxyOn, 1024, sec())
 	if !ok {
 		return
 	}
@@ -39,7 +56,7 @@ func runC18ProdPair(c *harness.Case, proxyOn bool) {
 		c.Inconclusive("the first node did not become leader within the watchdog")
 		return
 	}
-	B, ok := newProdNode(c, eng.KV, rm, false, proxyOn, 1024)
+	B, ok := newProdNodeSec(c, eng.KV, rm, false, proxyOn, 1024, sec())
 	if !ok {
 		return
 	}
@@ -47,7 +64,7 @@ func runC18ProdPair(c *harness.Case, proxyOn bool) {
 	ctx := context.Background()
 	var log []string
 	wit := func() interface{} {
-		return map[string]interface{}{"proxy": proxyOn, "leader": A.peerAddr, "follower": B.peerAddr, "requests": log}
+		return map[string]interface{}{"proxy": proxyOn, "peer_tls": peerTLS, "leader": A.peerAddr, "follower": B.peerAddr, "requests": log}
 	}
 	note := func(format string, a ...interface{}) { log = append(log, fmt.Sprintf(format, a...)) }
 	full := P + "/"
@@ -213,7 +230,7 @@ func runC18ProdPair(c *harness.Case, proxyOn bool) {
 			c.Stat("follower_watches_refused", 1)
 		}
 	}
-	c.AddSet("production_pair", fmt.Sprintf("proxy=%v", proxyOn))
+	c.AddSet("production_pair", fmt.Sprintf("proxy=%v peer-tls=%s", proxyOn, peerTLS))
 	c.Fingerprint(true, "production-pair", proxyOn, c.Index)
 	c.R.Sample = map[string]interface{}{"case": c.R.Name, "requests": log}
 }
